@@ -112,6 +112,8 @@ CONFIGS = {
     # two specs with different per-spec exemptions through one cleaner: the order must not change between specs
     "runs2sp": dict(kinds=["text", "kw", "fqdn", "pw", "ip"], tok=1, lines=1, specs=2, tot=2,
                     noobf=[[], ["mac"], ["ip", "keyword"]], fam=["plain", "kwdom"], runs=2),
+    # several not-yet-seen hosts of the domain on ONE line, names of equal length (also mixed with a longer one)
+    "runshosts": dict(kinds=["dom", "text"], ndom=4, tok=4, lines=1, kws=[[]], fam=["eqlen"], runs=2),
     # nothing to apply: no patterns, no keywords, every enabled obfuscator exempted (the machine-id spec)
     "runsnone": dict(kinds=["text", "ip", "fqdn"], tok=1, lines=2, blank=True, kws=[[]], pats=[[]], nored=[False, True],
                      noobf=[["hostname", "ip", "mac", "password"]], runs=2),
@@ -133,8 +135,8 @@ PLAN = {
     "C09": dict(quick=dict(emit=["hist2", "hist2x", "histw"], model=[], cap=8000, nconc=2, paths=["content"], long=80),
                 thorough=dict(emit=["hist2", "hist2x", "histw", "hist3ip", "hist3host", "hist3mac"], model=[], cap=50000, long=600,
                               nconc=3, paths=["content", "content", "provider", "file"])),
-    "C10": dict(quick=dict(emit=["runs3", "runs2sp", "runsnone", "runsallow"], model=["ordruns"], cap=700, seeds=16),
-                thorough=dict(emit=["runs3", "runs2sp", "runsnone", "runsallow", "runs2x2", "runs4"], model=["ordruns"], cap=5000, seeds=64)),
+    "C10": dict(quick=dict(emit=["runs3", "runs2sp", "runsnone", "runsallow", "runshosts"], model=["ordruns"], cap=800, seeds=16),
+                thorough=dict(emit=["runs3", "runs2sp", "runsnone", "runsallow", "runshosts", "runs2x2", "runs4"], model=["ordruns"], cap=5000, seeds=64)),
 }
 
 ASSUMPTIONS = [
